@@ -736,6 +736,36 @@ func init() {
 					r.Sample(c07Case{Kind: "scan", Seed: name, Mut: "trunc", A: n / 2})
 				}
 			}
+			// T4 by statement counts (coverage counters of an instrumented helper): work grows like the input
+			if os.Getenv("VERIF_WORK_BIN") != "" {
+				sizes := []int{200}
+				if thorough {
+					sizes = []int{200, 1500}
+				}
+				type wc struct {
+					f string
+					n int
+				}
+				var wcs []wc
+				for _, f := range c07WorkFamilies {
+					for _, n := range sizes {
+						wcs = append(wcs, wc{f, n})
+					}
+				}
+				r.ParallelFor(len(wcs), func(i int) {
+					cs := c07WorkCase{Kind: "work", Family: wcs[i].f, N: wcs[i].n}
+					r.Evals.Add(3)
+					r.Journal(cs)
+					okw, sig, detail := c07WorkEval(cs)
+					r.Distinct.Add("work|" + cs.Family + fmt.Sprint(cs.N))
+					if !okw {
+						r.Fail(engine.Failure{Sig: sig, Case: cs, Detail: detail, Size: 6})
+					}
+				})
+				r.Extra["work_families"] = len(c07WorkFamilies)
+			} else {
+				r.Note("statement-count sub-check skipped: no instrumented helper binary")
+			}
 			// history independence of the string parsers (two fresh processes, opposite orders)
 			for _, pn := range c07HistParsers {
 				diff, n, err := c07HistDiff(pn)
@@ -858,6 +888,11 @@ func init() {
 				var sc c07ScaleCase
 				json.Unmarshal(raw, &sc)
 				return c07ScaleEval(sc)
+			}
+			if c.Kind == "work" {
+				var wc c07WorkCase
+				json.Unmarshal(raw, &wc)
+				return c07WorkEval(wc)
 			}
 			return c07Eval(c)
 		}})
